@@ -1,1 +1,1 @@
-MODULES = ["runtime_status", "container", "container_gen", "pool", "dag", "sched_naive", "sched_overbook", "sched_prio_pool", "trace", "tools", "simstats", "csvio", "generator"]
+MODULES = ["runtime_status", "container", "container_gen", "pool", "dag", "sched_naive", "sched_overbook", "sched_prio_pool", "trace", "tools", "simstats", "csvio", "generator", "sched_priority"]
